@@ -1,13 +1,43 @@
+import os
 from common import *
+HARNESS_OV = os.path.join(os.path.dirname(os.path.dirname(os.path.dirname(os.path.abspath(__file__)))), "harness", "overlay")
+
+
+def _overlay(tmpdir):
+    """adds stack/zz_verif_c12.go to package stack: constructor for a linkAddrCache with chosen
+    ageLimit / resolutionTimeout / attempts, call-through wrappers for its unexported methods and
+    read access to `next` (no logic of its own)."""
+    import vlib
+    return {os.path.join(vlib.REPO, "stack/zz_verif_c12.go"): os.path.join(HARNESS_OV, "c12_stack_zz_verif.go.txt")}
+
 
 SPEC = dict(
-    id="C12", corr="Corr.C12", driver="h_c12", overlay=True,
+    id="C12", corr="Corr.C12", driver="h_c12", overlay=True, extra_overlay=_overlay,
     targets=["Properties/C12.vo", "Corr/C12.vo"],
-    args=lambda tier, seed: (["-seed", seed, "-n", 1500] if tier == "quick" else ["-seed", seed, "-n", 30000]),
-    search_args=lambda seed: ["-seed", seed, "-n", 3000],
-    shard=400,
+    args=lambda tier, seed: (["-seed", seed, "-n", 700, "-hist", 120, "-overflow", 2, "-timers", 90, "-conc", 32] if tier == "quick"
+                             else ["-seed", seed, "-n", 30000, "-hist", 2500, "-overflow", 12, "-timers", 1500, "-conc", 48, "-scen", 6]),
+    search_args=lambda seed: ["-seed", seed, "-n", 1500, "-hist", 200, "-overflow", 2, "-timers", 150],
+    shard=100,
+    timeout=2400,
     patterns={},
-    rule="(a) ARP packets through a fresh real stack",
-    trusted_base=[KERNEL, CORR_TB],
-    assumptions=[],
+    rule="(a) CArp: one ARP packet injected into a fresh real stack (recording link endpoint declaring CapabilityResolutionRequired, 'arp' protocol address added, 1-4 IPv4 addresses): lattice of 12 op codes x 7 targets (own, second own, foreign, network, broadcast, zero, sender), one wrong header field at a time (hardware type, protocol type, hlen, plen) for requests and replies, truncation at every length 0..46 and first-view cut at every length 0..30, odd link-address lengths, no arp address; then seeded random packets (own / foreign / one-bit-off / broadcast / random targets and senders, op 1/2/other, 1/4 with a header mutation, trailing bytes, truncation, garbage, link-layer source differing from the sender hardware field); observed: frames handed to the link endpoint (Take) and Stack.GetLinkAddress for sender/target/own/foreign addresses. (b) CCache: histories on the real linkAddrCache (overlay-added constructor, ring of 512): explicit histories of 4-40 add / get (with and without resolver, 4 wakers, static key) / checkLinkRequest(any attempt) / removeWaker over 2-5 keys incl. the zero FullAddress, ageLimit 55 ms with sleeps across expirations; ring overflow (517-519 neighbours, pending resolution and ready entry evicted, overwrites, then look-ups of all); real resolver goroutines (timeout 30 ms, attempts 1-4, ageLimit 75 or 300 ms: replies arriving or not, extra waiters, removeWaker, second resolution). Every operation runs >= 5 ms away from every expiration and timer deadline, its measured time is the model's `now`; histories where the scheduler broke that are dropped and counted in the metadata. (c) CScen (thorough only): UDP write / TCP connect with the real constants to an on-link neighbour / through a gateway / own address / limited broadcast with 0-3 ARP requests unanswered: frames with times, final result. Non-trivial = packet of full length delivered to the handler (CArp), a get returned an address or blocked (CCache), every CScen; distinct = distinct case lines",
+    trusted_base=[KERNEL, CORR_TB,
+                  "Print Assumptions: every C12 theorem is closed under the global context (no axioms)",
+                  "modelled, not verified: protocol/header/arp.go, protocol/network/arp/arp.go, the ARP branch of stack/nic.go DeliverNetworkPacket (Model/Arp.v); stack/linkaddrcache.go incl. the resolver goroutine as a transition system (Model/LinkCache.v); stack/route.go Resolve (Model/Resolve.v, used by the scenario correspondence only); tied to the code by the differential runs",
+                  "overlay-added file stack/zz_verif_c12.go (harness/overlay/c12_stack_zz_verif.go.txt): constructor with chosen durations, call-through wrappers of add/get/removeWaker/checkLinkRequest, read access to next",
+                  "time: the cache model takes `now` as an input; the driver feeds the measured wall-clock time of each operation and keeps operations >= 5 ms from every deadline, so the order of clock comparisons is the same in model and implementation; resolver timer firings are observed through the test resolver's request log, a timer that fires later than 10 ms after its deadline makes the driver drop the history (a silent stop that nothing the driver did explains is re-examined 45 ms later and dropped if the request or notification shows up)",
+                  "not modelled: sync.Mutex (operations are atomic steps), the select between timer and done in startAddressResolution when both are ready, IPv6 neighbour discovery (icmp.go) and the TCP/UDP callers (scenario runs only); Stack.RemoveWaker (see open problems: its nic==nil test is inverted, so UDP's RemoveWaker is a no-op)"],
+    assumptions=["FullAddress keys and link addresses are compared as Go values; the cache model uses injective integer encodings (0 = zero value / empty string)",
+                 "one time.Now() value per cache operation (the calls inside one critical section are microseconds apart)",
+                 "entryState only ever holds its four constants (the 'invalid state' default branches are not represented)",
+                 "resolution_budget: the resolver's timers fire on time (punctual schedule res_run); no add for the key, fewer operations than ring slots and attempts*timeout <= ageLimit during the resolution"],
 )
+
+
+def _run(spec, tier, seed):
+    """quick: about 10 shards of 100 cases; thorough: shards of 300."""
+    import vlib
+    return vlib.standard_check(dict(spec, shard=100 if tier == "quick" else 300), tier, seed)
+
+
+SPEC["run"] = _run
